@@ -245,7 +245,7 @@ def key_columns(ctx, gm: GroupModel, rule: str) -> None:
         # (made unique left to right, an unnamed key placed before a key named 'key' takes that name and the real column is renamed)
         from ..symx import flatten_conds as _fc
         N = ("attr", col, "_name")
-        is_u = lambda t: t[0] == "call" and t[1][0] == "lam" and len(t[2]) == 1 and not t[3] and it.atomic_closure(it.closures[t[1][1]])
+        is_u = lambda t: gm.uniq_call(t) is not None
         seen_sets = set()
 
         def kcond(c, nval, repeated):
@@ -433,21 +433,19 @@ def naming_kernel(ctx, agg: GroupModel, win: GroupModel, rule: str) -> None:
                message=f"{gm.which}: " + (f"{len(missing)} output name(s) do not pass through the uniquifier" if missing else
                                           f"{len(uniqs)} different uniquifiers are used (names unique only per uniquifier)"))
         if len(uniqs) >= 1:
-            c = gm.it.closures[sorted(uniqs)[0][1]]
-            us[gm.which] = c
-    if "aggregate" in us and "window" in us:
+            us[gm.which] = gm.uniq_function(sorted(uniqs, key=repr)[0])
+    if us.get("aggregate") is not None and us.get("window") is not None:
         ua, uw = us["aggregate"], us["window"]
-        fw = uw.finfo or win.f
-        fa_u = uniquify_facts(ua.finfo)[1] if ua.finfo is not None else None
-        fw_u = uniquify_facts(uw.finfo)[1] if uw.finfo is not None else None
+        fw = uw
+        fa_u = uniquify_facts(ua)[1]
+        fw_u = uniquify_facts(uw)[1]
         ctx.ob(rule, fw, "uniquify-siblings", fa_u is not None and fa_u == fw_u,
                f"window.uniquify numbers repeated names like aggregate.uniquify (first suffix, step) = {fa_u}", uw.node,
                message=f"window's uniquify numbers repeated names differently from aggregate's: (first suffix, step) {fw_u} vs {fa_u}")
     for gm in (agg, win):
-        c = us.get(gm.which)
-        if c is None:
+        if gm.which not in us:
             continue
-        u = c.finfo
+        u = us[gm.which]
         if u is None:
             raise AnalysisError(f"{gm.which}: the uniquifier closure is not an indexed function")
         problems = uniquify_problems(u)
